@@ -33,8 +33,9 @@ def strip (s : Bytes) : Bytes := ((s.dropWhile isOWS).reverse.dropWhile isOWS).r
 
 def isAlphaNum (c : Char) : Bool :=
   (48 ≤ c.toNat && c.toNat ≤ 57) || (65 ≤ c.toNat && c.toNat ≤ 90) || (97 ≤ c.toNat && c.toNat ≤ 122)
-/-- RFC 9110 tchar -/
-def isTchar (c : Char) : Bool := isAlphaNum c || "!#$%&'*+-.^_`|~".toList.contains c
+/-- RFC 9110 tchar, and obs-text (bytes 0x80–0xFF), which a recipient treats as opaque data: such bytes
+    compare byte for byte (HTTP case-insensitivity is ASCII only) -/
+def isTchar (c : Char) : Bool := isAlphaNum c || "!#$%&'*+-.^_`|~".toList.contains c || c.toNat ≥ 128
 def isToken (s : Bytes) : Bool := !s.isEmpty && s.all isTchar
 
 def isDigitC (c : Char) : Bool := 48 ≤ c.toNat && c.toNat ≤ 57
